@@ -376,10 +376,8 @@ example :
 
 /-
   NOT PROVED:
-  * the other direction of OUTCOME agreement: `success_means_no_bad` shows a call
-    can only succeed if no `bad` type is reachable from `τ`; that a call on a
-    `τ` without reachable `bad` types does not fail, and that it returns at all,
-    are progress statements, and termination of the construction is not claimed.
+  * termination of the construction: the outcome of every FINISHED call is
+    characterised (Props/C07Outcome.lean), that a call returns at all is not claimed.
   * Marshal / Unmarshal themselves are not modelled beyond the walk `use`.
 -/
 
